@@ -222,6 +222,10 @@ CORPUS = [
     # open finding: unbounded recursion through a package's own name
     # (a/b-3 fails only once a/c-1's blocker is in place; the next candidate a/b-2 needs a/b again, whose first candidate is a/b-3 ...)
     {"src": {"a/b-2": {"idepend": "a/b"}, "a/b-3": {"rdepend": "a/c", "slot": "1"}, "a/c-1": {"rdepend": "!!a/b"}}, "vdb": {}, "targets": ["a/b"], "mode": "upgrade"},
+    # ... and the same through weak blockers only (each is "resolved past" by adding the other name again)
+    {"src": {"a/b-2_rc1": {"rdepend": "|| ( a/c a/c a/c ) !<=a/b-1.10 || ( >a/c-2-r1:0 ~a/c-3 )", "idepend": "|| ( ~a/c-2_rc1 a/c a/c ) a/c"},
+             "a/b-3": {"bdepend": "|| ( a/c a/c a/c )", "rdepend": "!a/c >=a/c-1.1", "slot": "1"}, "a/c-2_rc1": {}, "a/c-1": {"idepend": "!>=a/c-2-r1", "pdepend": "!a/b"}},
+     "vdb": {"a/b-1": {"depend": ">=a/c-2 !a/c", "rdepend": "a/c"}, "a/c-3": {}}, "targets": ["a/c", "a/b"], "mode": "upgrade"},
     # open finding: a clause assumed satisfied by a package in flight that never makes it into the plan
     {"src": {"a/b-3": {}, "a/c-1": {"bdepend": "=a/c-2 >=a/d-2"}, "a/c-2": {"rdepend": "|| ( a/f ~a/f-2 >=a/d-2 ) >=a/b-1"}, "a/c-3": {"depend": "a/c =a/c-1"},
              "a/d-1": {"rdepend": "a/c >=a/d-3"}, "a/d-2": {"rdepend": "|| ( a/f >=a/f-3 >=a/b-2 )", "pdepend": "|| ( a/f =a/c-3 a/f ) <a/b-2"},
@@ -280,13 +284,15 @@ def pid(p):
     return (p.repo.repo_id, p.cpvstr)
 
 
-def key_graph(U):
+def key_graph(U, weak_blockers=False):
+    """package-name graph: p.key -> key of every plain atom in p's dependencies; with weak_blockers also -> key of every weak
+    blocker (the resolver resolves past a weak blocker by adding another version of the blocked name: insert_blockers)"""
     g = {}
     for p in U:
         for cls in CLASSES:
             for cl in getattr(p, cls).cnf_solutions():
                 for a in cl:
-                    if not a.blocks:
+                    if not a.blocks or (weak_blockers and not a.blocks_strongly):
                         g.setdefault(p.key, set()).add(a.key)
     return g
 
@@ -414,8 +420,8 @@ def run(ctx):
         if status == "recursion":
             # classify: repositories whose key-level dependency graph has a cycle are an open finding
             s2, v2 = fx["mk"]("src", case["src"]), fx["mk"]("vdb", case["vdb"], livefs=True)
-            cyc = has_cycle(key_graph(list(s2) + list(v2)))
-            ctx.violation(brief, "RecursionError while resolving" + ("" if cyc else " although no package name depends on itself transitively"),
+            cyc = has_cycle(key_graph(list(s2) + list(v2), weak_blockers=True))
+            ctx.violation(brief, "RecursionError while resolving" + ("" if cyc else " although no package name reaches itself through dependencies / weak blockers"),
                           finding="C15-unbounded-recursion-on-name-cycles" if cyc else None)
             ctx.case(brief, False)
             continue
